@@ -53,6 +53,20 @@ func runC13(p *Prog, r *Report) {
 			checkDecorator(p, r, fn, g)
 		}
 	}
+	// R1 (second half): the address x port generator turns each bad address entry into exactly one
+	// error request per pass, built afresh (C01.R6 pair obligations re-evaluated: a request template
+	// that outlives the iteration lets one entry's error leak into its neighbours)
+	{
+		sub := NewReport("C13", r.Tier)
+		checkCrossProduct(p, sub)
+		for _, o := range sub.Obs {
+			if o.Rule == "C01.R6" {
+				o2 := *o
+				o2.Rule = "C13.R1"
+				r.Obs = append(r.Obs, &o2)
+			}
+		}
+	}
 	// R4: import the builder and worker contracts
 	sub := NewReport("C13", r.Tier)
 	for _, fn := range p.LoopFuncsCalling(func(c *ssa.CallCommon) bool { return IsCallTo(c, fnFill) }) {
